@@ -1,3 +1,4 @@
+from decimal import Decimal
 import copy
 from dataclasses import dataclass
 from typing import Any, Optional, Tuple, Union
@@ -70,11 +71,12 @@ def _handle_literal(value: Union[str, int, float, bool]):
     elif isinstance(value, bool):
         return "true" if value else "false"
     elif isinstance(value, float):
-        decimal = str(value).split(".")[1]
-        if len(decimal) > 4:
-            return f"{value:f}".rstrip("0")
-        else:
-            return f"{value:g}"
+        # Shortest plain-decimal text that reads back as the same value; exponent notation is
+        # not part of the grammar. Integral values keep their historical integer spelling.
+        text = format(Decimal(repr(value)), "f")
+        if "." in text:
+            text = text.rstrip("0").rstrip(".")
+        return text
     return str(value)
 
 
